@@ -176,6 +176,17 @@ def e2e(rep, tier, seed):
         "synth/two_overflows": "fn main() {\n%s\n%s\n}\n" % (long_line, long_line.replace("a", "b")),
         "synth/overflow_in_string_and_code": "fn main() {\n    let s = \"%s\";\n%s\n}\n" % ("x" * 120, long_line),
     }
+    # which code may count as skipped is fixed by construction here: lines with SKIPPED_ belong to #[rustfmt::skip] items
+    # or to macro calls copied verbatim; lines with CHECKED_ are ordinary code or macro calls that rustfmt re-indents
+    ck, sk = "CHECKED_" + "c" * 120, "SKIPPED_" + "s" * 120
+    synth.update({
+        "synth/blocklike_failed_macro_paren": "fn main() {\n    bar!(\n        a => b c %s,\n    );\n    let %s = 1;\n}\n" % (ck, ck),
+        "synth/blocklike_failed_macro_bracket": "fn main() {\n    bar![\n            a => b c %s,\n            d => e f,\n    ];\n}\n" % ck,
+        "synth/verbatim_failed_macro": "fn main() {\n    bar!(a => b c %s);\n    let %s = 1;\n}\n" % (sk, ck),
+        "synth/skip_attr_fn": "#[rustfmt::skip]\nfn f() {\n    let %s = 1;\n}\nfn g() {\n    let %s = 1;\n}\n" % (sk, ck),
+        "synth/skip_attr_stmt": "fn g() {\n    #[rustfmt::skip]\n    let %s = 1;\n    let %s = 1;\n}\n" % (sk, ck),
+        "synth/nested_failed_macro_in_item_macro": "fn main() {\n    outer! {\n        inner!(\n            a => b c %s,\n        );\n    }\n    let %s = 2;\n}\n" % (sk, ck),
+    })
     for name, text in synth.items():
         for (w, ts, ht) in grid:
             cases.append({"text": text, "config": [["max_width", w], ["tab_spaces", ts], ["hard_tabs", ht], ["error_on_line_overflow", "true"], ["error_on_unformatted", "true"]], "again": False, "lex": False, "entries": True})
@@ -192,6 +203,14 @@ def e2e(rep, tier, seed):
         n += 1
         errs = [[e[0], e[1], e[2], e[3], False, False] for e in r["entries"] if e[1] in (0, 1)]
         nerr += len(errs)
+        if pid.startswith("synth/"):
+            olines = out.split("\n")
+            for lo, hi in r["skipped"]:
+                hit = [k for k in range(lo, hi + 1) if 1 <= k <= len(olines) and "CHECKED_" in olines[k - 1]]
+                if hit:
+                    if rep.violation("e2e_skipped_range_covers_formatted_code:%s" % pid, {"pool_id": pid, "config": c["config"], "input": c["text"], "out": out, "skipped": r["skipped"], "lines": hit},
+                                     "the formatter recorded lines %r of %s as skipped, but they are not skipped code (no skip attribute, not a verbatim copy): their width is never checked" % (hit, pid)):
+                        found += 1
         pseudo_case = {"text": out, "config": c["config"], "skipped": [list(x) for x in r["skipped"]], "sel": None}
         pseudo_res = {"classes": [[k, ord(ch)] for k, ch in zip(kinds, out)], "errors": errs,
                       "flags": [r["flags"]["operational"], False, False, False, False, False, False]}
